@@ -8,7 +8,7 @@
    decision are replaced by the oracle boolean [ovr] (consulted only where the C code evaluates the decision).
    [vr] selects the code variant: all-false = src/fs/iwfsmfile.c as it is; fx_lfbk / fx_strict / fx_sync / fx_short / fx_realloc /
    fx_hint / fx_leak follow the code after fixes/fsm-lfbk.diff / fsm-strict-dealloc.diff / fsm-syncbmap.diff / fsm-dealloc-short.diff /
-   fsm-realloc-guard.diff / fsm-alloc-overflow.diff / fsm-resize-leak.diff / fsm-realloc-recheck.diff (fx_recheck).
+   fsm-realloc-guard.diff / fsm-alloc-overflow.diff / fsm-resize-leak.diff / fsm-realloc-recheck.diff (fx_recheck) / fsm-solid-rollback.diff (fx_solid).
    64-bit arguments: the public functions take off_t values; every `(uint64_t) x >> bpow` of the C code is [blk_of] (the
    cast is modelled, so negative and huge arguments are inside the model).  [maxoff]: the exfile's limit on the file size
    (0 = none); a growth beyond it fails with IWFS_ERROR_MAXOFF in _exfile_ensure_size_lw ([ensure_ok]).  No proofs here. *)
@@ -52,7 +52,7 @@ Fixpoint lookup_bounds (k : key) (t : list key) (lb : option key) : option key *
   end.
 
 (* code variant + the one open-time option that changes control flow (mmap_all) *)
-Record variant := mkVariant { fx_lfbk : bool; fx_strict : bool; fx_sync : bool; fx_short : bool; fx_realloc : bool; fx_hint : bool; fx_leak : bool; fx_recheck : bool;
+Record variant := mkVariant { fx_lfbk : bool; fx_strict : bool; fx_sync : bool; fx_short : bool; fx_realloc : bool; fx_hint : bool; fx_leak : bool; fx_recheck : bool; fx_solid : bool;
                              mmap_all : bool }.
 
 Record fsm := mkFsm {
@@ -260,7 +260,9 @@ Definition stats_update (s : fsm) (length_blk : Z) : fsm :=
 Definition solid_sz (s : fsm) (off olen : Z) : Z := shl off (bpow s) + shl olen (bpow s).
 Definition solid_rc (s : fsm) (off olen : Z) : Z := if ensure_ok s (solid_sz s off olen) then 0 else FSM_E_MAXOFF.
 Definition solid (s : fsm) (off olen : Z) : fsm :=
-  if ensure_ok s (solid_sz s off olen) then ensure_size s (solid_sz s off olen) else s.
+  if ensure_ok s (solid_sz s off olen) then ensure_size s (solid_sz s off olen)
+  else if fx_solid (vr s) then snd (blk_deallocate s off olen) (* after fixes/fsm-solid-rollback.diff (7b9f72c): the region is given back *)
+  else s.
 
 (* _fsm_blk_allocate_lw, IWFSM_ALLOC_PAGE_ALIGNED branch *)
 Fixpoint blk_allocate_al (fuel : nat) (s : fsm) (length_blk opts : Z) : aret :=
@@ -448,7 +450,7 @@ Definition reopen (s : fsm) (strict' mmap_all' : bool) : fsm :=
   load_fsm (mkFsm (disk_bm s) [] 0 0 (p_bmoff s) (p_bmlen s) (hdrlen s) (bpow s) (aunit s) (fsize s)
                   (p_crzsum s) (p_crznum s) (p_crzsum s) (p_crznum s) (p_bmoff s) (p_bmlen s) (maxoff s) strict'
                   (mkVariant (fx_lfbk (vr s)) (fx_strict (vr s)) (fx_sync (vr s)) (fx_short (vr s)) (fx_realloc (vr s))
-                             (fx_hint (vr s)) (fx_leak (vr s)) (fx_recheck (vr s)) mmap_all')).
+                             (fx_hint (vr s)) (fx_leak (vr s)) (fx_recheck (vr s)) (fx_solid (vr s)) mmap_all')).
 
 (* iwfs_fsmfile_open of a new (truncated) file: _fsm_init_impl + _fsm_init_new_lw; omaxoff = opts->exfile.maxoff
    (iwfs_exfile_open keeps it, rounded down to the page size, when it is at least one page) *)
